@@ -1,6 +1,6 @@
 (* Per-run obligations for C05 / C10 / C11 against the AST generated from the current /repo tree. *)
 From Coq Require Import String List Bool.
-From QRB Require Import Meta.GoAst Meta.EffectIR Meta.Lower Gen.Ast.
+From QRB Require Import Meta.GoAst Meta.EffectIR Meta.Lower Meta.MapOrder Gen.Ast.
 Import ListNotations.
 
 (* every function and every method with a value receiver of the root, builder and fn packages is
@@ -24,3 +24,8 @@ Eval vm_compute in (length (filter value_fn all_funcs)).
 
 Lemma batch_builder_copies : batch_end_copies all_funcs = true.
 Proof. vm_compute. reflexivity. Qed.
+
+(* every range over a Go map is collect-and-sort.Strings or the bind fill loop *)
+Lemma map_iteration_ordered : map_order_ok all_funcs = true.
+Proof. vm_compute. reflexivity. Qed.
+Eval vm_compute in (map_ranges all_funcs).
